@@ -263,13 +263,15 @@ def check (c):
     mon  = {}
     worst = 0.0
     margins = {}
-    def judge (name, measured, allowed, msg):
+    famp = observe.feed_amp (mA)
+    def judge (name, measured, allowed, msg, key = None):
         nonlocal worst
         mon [name] = mon.get (name, 0) + 1
-        worst = max (worst, measured / allowed)
-        margins [name.split (':') [0]] = max (margins.get (name.split (':') [0], 0.0), measured / allowed)
+        if key != observe.IMP_KEY:
+            worst = max (worst, measured / allowed)
+            margins [name.split (':') [0]] = max (margins.get (name.split (':') [0], 0.0), measured / allowed)
         if not (measured <= allowed):
-            viol.append (dict (monitor = name, key = name, msg = msg, measured = measured, allowed = allowed))
+            viol.append (dict (monitor = name, key = key or name, msg = msg, measured = measured, allowed = allowed))
     sc   = spec ['motion']['sc'] or 1.0
     unit = observe.min_seg (mA)
     # geometry of the two routes
@@ -290,7 +292,8 @@ def check (c):
         judge ('geometry.routes', d, 1e-9, 'option route and coordinate route differ by %.3g of the size' % d)
         observe.solve (mC)
         for sa, sb in zip (mB.sources, mC.sources):
-            judge ('impedance.routes', abs (sa.impedance - sb.impedance) / abs (sb.impedance), tol, 'feed impedance differs between option route and coordinate route: %r / %r' % (sa.impedance, sb.impedance))
+            rel = abs (sa.impedance - sb.impedance) / abs (sb.impedance)
+            judge ('impedance.routes', rel, tol, 'feed impedance differs between option route and coordinate route: %r / %r' % (sa.impedance, sb.impedance), key = observe.imp_key (rel, tol, famp) and observe.imp_key (rel, tol, famp).replace ('impedance', 'impedance.routes', 1) if observe.imp_key (rel, tol, famp) == 'impedance' else observe.imp_key (rel, tol, famp))
     # results: map B back into the frame of A
     Rt = lambda v: v
     def back (x):
@@ -315,7 +318,8 @@ def check (c):
     else:
         judge ('currents', d, tol, 'currents changed by %.3g (relative to max) under %s (cond %.3g)' % (d, [t [0] for t in spec ['motion']['tr']] + (['scale'] if spec ['motion']['sc'] else []), cond))
     for sa, sb in zip (mA.sources, mB.sources):
-        judge ('impedance', abs (sa.impedance - sb.impedance) / abs (sa.impedance), tol, 'feed impedance %r became %r' % (sa.impedance, sb.impedance))
+        rel = abs (sa.impedance - sb.impedance) / abs (sa.impedance)
+        judge ('impedance', rel, tol, 'feed impedance %r became %r (largest current / feed current = %.3g)' % (sa.impedance, sb.impedance, famp), key = observe.imp_key (rel, tol, famp))
     dirs = [np.asarray (d, float) for d in spec ['dirs']]
     if mA.media is not None:
         dirs = [np.array ([d [0], d [1], abs (d [2]) + 0.15]) for d in dirs]
